@@ -124,6 +124,11 @@ pub const GENERIC_TEXT: &[&str] = &[
 /// (so that they straddle lexeme boundaries / end inside UTF-8 characters / chain as
 /// prefixes), a few duplicates, a few empty entries, special tokens; EOS last.
 pub fn vsyn(rng: &mut Rng, samples: &[Vec<u8>], n_multi: usize, canonical: bool, name: &str) -> Vocab {
+    vsyn_ex(rng, samples, n_multi, canonical, name, None)
+}
+
+/// `low`: Some(true) forces the layout with special tokens at low ids, None picks it one time in four
+pub fn vsyn_ex(rng: &mut Rng, samples: &[Vec<u8>], n_multi: usize, canonical: bool, name: &str, low: Option<bool>) -> Vocab {
     let mut words: Vec<Vec<u8>> = (0..=255u8).map(|b| vec![b]).collect();
     let mut seen: std::collections::HashSet<Vec<u8>> = words.iter().cloned().collect();
     let nonempty: Vec<&Vec<u8>> = samples.iter().filter(|s| s.len() >= 2).collect();
@@ -158,6 +163,22 @@ pub fn vsyn(rng: &mut Rng, samples: &[Vec<u8>], n_multi: usize, canonical: bool,
     // a few empty entries
     for _ in 0..rng.below(3) {
         words.push(vec![]);
+    }
+    let low = low.unwrap_or_else(|| rng.chance(1, 4));
+    if low && words.len() > 200 {
+        // layout of many real tokenizers: special tokens at LOW ids (1, 2, 10, 100..110) in front of / between the
+        // ordinary tokens instead of at the end; only the EOS stays last
+        let pos = [1usize, 2, 10, 100, 101, 105, 107, 109, 110];
+        for (n, p) in SPECIAL_NAMES[..SPECIAL_NAMES.len() - 1].iter().zip(pos.iter()) {
+            let mut w = vec![0xFFu8];
+            w.extend_from_slice(n.as_bytes());
+            words.insert(*p, w);
+        }
+        let mut w = vec![0xFFu8];
+        w.extend_from_slice(SPECIAL_NAMES[SPECIAL_NAMES.len() - 1].as_bytes());
+        words.push(w);
+        let eos = (words.len() - 1) as u32;
+        return Vocab::from_words(&format!("{name}lo"), words, eos, canonical);
     }
     let eos = push_specials(&mut words);
     Vocab::from_words(name, words, eos, canonical)
